@@ -453,7 +453,23 @@ def run_theta_case(case, drv):
         if err is not None:
             mon.append({"cls": "theta-update-internal-error", "what": f"ThetaRecord.update raised {err} for {case['rec']!r}"})
             continue
-        _monitor_update(case, rec, facts, old, new, upd, drv, k, mon, tags)
+        n_before = len(mon)
+        readback = _monitor_update(case, rec, facts, old, new, upd, drv, k, mon, tags)
+        if drv is not None:
+            # the decidable side-conditions of theta_update_reads_back_decidable, evaluated by the Lean driver
+            shape, pok, norep, model_ok = drv.ask(["sidecond", w, [U.param_wire(*t) for t in new]])
+            if (pok == "true") != all(in_nonmem_domain(t) for t in new):
+                k.append(f"ParamOK: model {pok}, harness domain check {not (pok == 'true')} for {new}")
+            inside = shape == pok == norep == "true"
+            tags.append("sidecond:" + ("inside" if inside else "outside:" + "".join(c for c, v in zip("SPR", (shape, pok, norep)) if v != "true")))
+            if inside and model_ok != "true":
+                k.append(f"the statement of theta_update_reads_back_decidable fails on the model for {case['rec']!r} {new}")
+            if inside and readback is False:
+                k.append(f"inside the side-conditions of theta_update_reads_back_decidable the real code does not read back: {case['rec']!r} -> {new}")
+            if inside:
+                for mm in mon[n_before:]:
+                    if mm["cls"] in ("theta-repeat-partial-edit", "theta-fix-inside-parens-edit"):
+                        k.append(f"class {mm['cls']} reported inside the side-conditions it negates: {case['rec']!r} {new}")
     # ---- remove
     inds = case["remove"]
     tags.append("op:remove" if inds else "op:remove-none")
@@ -506,12 +522,18 @@ def _monitor_update(case, rec, facts, old, new, upd, drv, k, mon, tags):
     for f in facts:
         item_cls.append(classify_update(f, old[pos:pos + f["n"]], new[pos:pos + f["n"]]))
         pos += f["n"]
+    readback = None   # True/False when the written record could be re-read and the parameters were in the domain
     if rr is None:
         if domain:
-            cls = next((c for c in item_cls if c), "theta-update-unreadable")
+            cls = next((c for c in item_cls if c), None)
+            if cls is None and any(f15_adjacent(nd) for nd in item_nodes(upd)):
+                cls = "theta-low-init-rpar-adjacent"
+            cls = cls or "theta-update-unreadable"
             mon.append({"cls": cls, "what": f"update of {case['rec']!r} to {new} writes {text!r}, which cannot be read: {refusal}"})
-        return
+        return None
     got = py_parse(rr)
+    if domain:
+        readback = got == new
     if domain and got != new:
         # locate the first differing item
         cls = None
@@ -519,7 +541,8 @@ def _monitor_update(case, rec, facts, old, new, upd, drv, k, mon, tags):
             pos = 0
             for f, c in zip(facts, item_cls):
                 if got[pos:pos + f["n"]] != new[pos:pos + f["n"]]:
-                    cls = c or "theta-update-readback"
+                    # a defective neighbour can change how this item is read (a stray FIX attaches to the previous theta)
+                    cls = c or next((c2 for c2 in item_cls if c2), "theta-update-readback")
                     break
                 pos += f["n"]
         else:
@@ -535,12 +558,15 @@ def _monitor_update(case, rec, facts, old, new, upd, drv, k, mon, tags):
             g = item_facts(nd)
             if o == nw:
                 tags.append("item-unchanged")
-                if g["text"] != f["text"]:
-                    only_bounds = g["init"] == f["init"] and g["fix"] == f["fix"]
-                    cls = "theta-unchanged-bound-respelled" if only_bounds else "theta-frame"
+                # the property speaks of the spelling of values: compare the number tokens (an added FIX keyword for an
+                # auto-fixed (v,v,v) item or re-arranged parentheses are not a respelling; recorded in the distribution)
+                if (g["init"], g["low"], g["up"]) != (f["init"], f["low"], f["up"]):
+                    cls = "theta-unchanged-bound-respelled" if g["init"] == f["init"] else "theta-frame"
                     if f["inner_comment"] and not g["inner_comment"]:
                         cls = "theta-inner-comment-edit"
                     mon.append({"cls": cls, "what": f"item {f['text']!r} of {case['rec']!r} became {g['text']!r} although its parameter did not change"})
+                elif g["text"] != f["text"]:
+                    tags.append("item-unchanged-retokenised")
             elif f["n"] == 1:
                 tags.append("item-changed")
                 if o[0][0] == nw[0][0] and g["init"] != f["init"]:
@@ -549,6 +575,7 @@ def _monitor_update(case, rec, facts, old, new, upd, drv, k, mon, tags):
                     mon.append({"cls": "theta-unchanged-bound-respelled", "what": f"{f['text']!r} -> {g['text']!r}: lower bound {o[0][1]} unchanged"})
                 if o[0][2] == nw[0][2] and f["up"] is not None and g["up"] != f["up"]:
                     mon.append({"cls": "theta-unchanged-bound-respelled", "what": f"{f['text']!r} -> {g['text']!r}: upper bound {o[0][2]} unchanged"})
+    return readback
 
 
 def _kinds(root):
